@@ -428,6 +428,42 @@ def worker_history(rec, shard, nshards, depth, seed):
             rec.sample({"history": list(ops), "start": [HIST_SCHEMAS[si], sp, name + suf]})
 
 
+def respell_check(ctx):
+    """The text of a live tag is replaced by another spelling of the same tag (letter case of the name and of the suffix):
+    every form is that of a tag built from the new text."""
+    from hed import load_schema_version
+    from hed.models.hed_tag import HedTag
+    rec = ctx.rec
+    schema = load_schema_version("8.3.0")
+    starts = ["Label/abc", "Item/Object/myExt", "Duration/3 ms", "Red", "Property/Informational-property/Label/Xy z",
+              "Item/Zzq-ext/Deeper"]
+
+    def spellings_of(text):
+        return [text, text.upper(), text.lower(), text.swapcase(), text.title()]
+    for start in starts:
+        for first in spellings_of(start):
+            for second in spellings_of(start):
+                if first == second:
+                    continue
+                rec.n("evaluations")
+                rec.n("transitions", 2)
+                rec.n("distinct_nontrivial")
+                rec.state(("respell", start))
+                try:
+                    t = HedTag(first, schema)
+                    t.tag = second
+                    got = history_observe(t)
+                    want = history_observe(HedTag(second, schema))
+                except Exception as e:
+                    rec.violation("C03:respell:raises:" + type(e).__name__, first=first, second=second, error=repr(e)[:200])
+                    continue
+                if got != want:
+                    which = "+".join(k for k in got if got[k] != want[k])
+                    rec.violation("C03:respell:tag-text-replaced-forms-differ-from-a-fresh-tag:" + which, first=first,
+                                  second=second, got=got, fresh=want)
+    rec.outcome("respell")
+
+
 def reidentify_check(ctx):
     """A string parsed under one schema version and validated under another has the forms a fresh parse under that other
     version has - also where text that is an extension in one version is a schema tag in the other."""
@@ -509,6 +545,7 @@ def run(ctx):
                                "case_variants": 4, "suffixes": ["", EXT] + VALUES}
     ctx.parallel(worker, cfgs, ctx.seed)
     bulk_check(ctx, cfgs)
+    respell_check(ctx)
     rebase_check(ctx, cfgs)
     depth = ctx.pick(3, 5)
     ctx.rec.notes["bounds"]["histories"] = {"schemas": HIST_SCHEMAS, "ops": HIST_OPS, "depth": depth,
